@@ -50,6 +50,8 @@ Apply(s, r) ==
          [s0 EXCEPT !.bad = "unfinished_run_not_timed_out"]
     [] r.e = "snapshot" -> [s0 EXCEPT !.bad = IF ~r.ok THEN "cancelled_context_not_serializable" ELSE @]
     [] r.e = "resumed" -> [s0 EXCEPT !.bad = IF ~r.ok THEN "cancelled_context_not_resumable" ELSE @]
+    [] r.e = "resume_timeout_probe" ->
+         [s0 EXCEPT !.bad = IF ~r.timed_out THEN "resumed_unfinished_run_not_timed_out" ELSE @]
     [] r.e = "resume_end" ->
          [s0 EXCEPT !.bad = IF Tr.expect_result /\ r.outcome # "result" THEN "resumed_run_did_not_finish" ELSE @]
     [] OTHER -> s0
